@@ -30,8 +30,10 @@ REGISTRATION = {
     "note": COMMON_NOTE + "Modelled, not verified: cell placement in kvcache.Causal (findStartLoc is modelled, "
             "the layout after a defrag is taken from the real cache; C06 owns it; cell ranges are assumed to cover "
             "the sequence), multimodal inputs / "
-            "SameBatch (text inputs only), which FindStop variant the tree has (probed on the real function; C14 owns it), the HTTP layer (the slot-loading block of completion is replayed by "
-            "the driver), sampling beyond greedy. runner/llamarunner/cache.go: findLongestCacheSlot, "
+            "SameBatch (text inputs only), which FindStop variant the tree has (probed on the real function; C14 owns it), the HTTP layer in the history driver (it replays the slot-loading block of completion; request "
+            "lifetimes - admission, client disconnects, who frees a slot when - are driven through the REAL "
+            "(*Server).completion by TestVerifC07Handler with L2 monitors only, because flushPending's select "
+            "between send and quit is not seeded), sampling beyond greedy. runner/llamarunner/cache.go: findLongestCacheSlot, "
             "findBestCacheSlot (incl. the fork), countCommonPrefix, ShiftDiscard and NewInputCache run for real on "
             "real slots over request histories (records compared exactly with the model after every event; "
             "record-aliasing / coherence / prefix monitors); LoadCacheSlot and ShiftCacheSlot call llama.cpp "
@@ -69,6 +71,7 @@ THEOREMS = [
 ]
 OVERLAY = {
     "runner/ollamarunner/zz_verif_c07_test.go": "runner_ollamarunner/zz_verif_c07_test.go",
+    "runner/ollamarunner/zz_verif_c07_handler_test.go": "runner_ollamarunner/zz_verif_c07_handler_test.go",
     "kvcache/zz_verif_c07_export.go": "kvcache/zz_verif_c07_export.go",
     "model/zz_verif_c07_export.go": "model/zz_verif_c07_export.go",
 }
@@ -114,21 +117,45 @@ def ll_replayed_sha():
     return hashlib.sha1("".join(parts).encode()).hexdigest()
 
 
+def driver_died(ctx, outdir, out):
+    """The whole `go test` process died (a fatal error of the real code that recover cannot catch, e.g. a
+    deadlock): attribute it to the history the driver announced last, which is then a concrete input."""
+    cur = os.path.join(outdir, "current.txt")
+    case = open(cur).read().strip() if os.path.exists(cur) else ""
+    if case:
+        ctx.violation("driver-died", case, "the test process died while this history was running: " + out[-1200:])
+    else:
+        ctx.violation("driver-failed", "", out[-1500:], no_input=True)
+
+
 def run(ctx):
     rend = reset_end(ctx)
     ctx.lean_check(MODULES, THEOREMS)
     corpus = os.path.join(core.ROOT, "corpus", "C07", "histories.txt")
-    replay_file, replay_ll = None, False
+    replay_file, replay_ll, replay_hh = None, False, False
     if ctx.replay:
         replay_file = ctx.replay_line_file()
-        replay_ll = open(replay_file).read().lstrip().startswith("llhist")
-    if not replay_ll:
+        head = open(replay_file).read().lstrip()
+        replay_ll = head.startswith("llhist")
+        replay_hh = head.startswith("hhist")
+    if not ctx.replay or replay_hh:
+        # request lifetimes through the real (*Server).completion handler (clients that go away, requests
+        # admitted before the batch loop drops the abandoned sequence); L2 only, see the driver's header
+        env = {"VERIF_N": ctx.scale(400, 8000), "VERIF_C07_RESET_END": rend, "VERIF_C07_CORPUS": corpus}
+        if replay_hh:
+            env["VERIF_REPLAY"] = replay_file
+        rc, out, outdir = ctx.go_test("./runner/ollamarunner/", OVERLAY, "^TestVerifC07Handler$", env=env, timeout=1500)
+        if rc != 0:
+            driver_died(ctx, outdir, out)
+        ctx.read_stats(outdir)
+        ctx.classify(ctx.l2(outdir))
+    if not replay_ll and not replay_hh:
         env = {"VERIF_N": ctx.scale(1200, 30000), "VERIF_C07_RESET_END": rend, "VERIF_C07_CORPUS": corpus}
         if replay_file:
             env["VERIF_REPLAY"] = replay_file
         rc, out, outdir = ctx.go_test("./runner/ollamarunner/", OVERLAY, "^TestVerifC07$", env=env, timeout=1500)
         if rc != 0:
-            ctx.violation("driver-failed", "", out[-1500:], no_input=True)
+            driver_died(ctx, outdir, out)
         ctx.read_stats(outdir)
         ctx.l1(outdir)
         ctx.classify(ctx.l2(outdir))
